@@ -37,3 +37,77 @@ pub open spec fn join_spec(v: Seq<String>, sep: Seq<char>) -> Seq<char>
 pub fn slice_join(v: &[String], sep: &str) -> (r: String)
     ensures r@ == join_spec(v@, sep@)
 { v.join(sep) }
+
+// class S: &str == &str
+#[verifier::external_body]
+pub fn str_eq(a: &str, b: &str) -> (r: bool)
+    ensures r == (a@ == b@)
+{ a == b }
+
+// sequence suffix
+pub open spec fn seq_ends_with(s: Seq<char>, suf: Seq<char>) -> bool {
+    s.len() >= suf.len() && s.subrange(s.len() - suf.len(), s.len() as int) == suf
+}
+
+// class S: str::ends_with(&str)
+#[verifier::external_body]
+pub fn str_ends_with(a: &str, suf: &str) -> (r: bool)
+    ensures r == seq_ends_with(a@, suf@)
+{ a.ends_with(suf) }
+
+// class S: str::contains(char)
+#[verifier::external_body]
+pub fn str_contains_char(a: &str, c: char) -> (r: bool)
+    ensures r == a@.contains(c)
+{ a.contains(c) }
+
+// class S: <&String>::to_owned() / String::clone through a reference
+#[verifier::external_body]
+pub fn string_ref_to_owned(a: &String) -> (r: String)
+    ensures r == *a
+{ a.to_owned() }
+
+// class S: Vec::into_iter().find(p): first element accepted by p, None if there is none
+#[verifier::external_body]
+pub fn vec_into_find<T, F: Fn(&T) -> bool>(v: Vec<T>, f: F) -> (r: Option<T>)
+    requires forall |x: &T| #[trigger] f.requires((x,))
+    ensures
+        match r {
+            Some(x) => exists |i: int| 0 <= i < v@.len() && #[trigger] v@[i] == x && f.ensures((&v@[i],), true)
+                        && forall |j: int| 0 <= j < i ==> f.ensures((&#[trigger] v@[j],), false),
+            None => forall |j: int| 0 <= j < v@.len() ==> f.ensures((&#[trigger] v@[j],), false),
+        }
+{ v.into_iter().find(|x| f(x)) }
+
+// class S: HashSet::iter().find(p): some element accepted by p (which one is unspecified), None iff there is none
+#[verifier::external_body]
+pub fn hs_iter_find<'a, F: Fn(&&'a String) -> bool>(s: &'a HashSet<String>, f: F) -> (r: Option<&'a String>)
+    requires forall |x: &&'a String| #[trigger] f.requires((x,))
+    ensures
+        match r {
+            Some(x) => s@.contains(*x) && f.ensures((&x,), true),
+            None => forall |y: &'a String| s@.contains(*y) ==> f.ensures((&y,), false),
+        }
+{ s.iter().find(|x| f(x)) }
+
+// a String with a given content (total by extensionality)
+pub uninterp spec fn string_of(s: Seq<char>) -> String;
+pub broadcast axiom fn axiom_string_of(s: Seq<char>)
+    ensures #[trigger] string_of(s)@ == s;
+
+// class S: String::ends_with(&String), String::contains(char)
+#[verifier::external_body]
+pub fn string_ends_with(a: &String, suf: &String) -> (r: bool)
+    ensures r == seq_ends_with(a@, suf@)
+{ a.ends_with(suf.as_str()) }
+
+#[verifier::external_body]
+pub fn string_contains_char(a: &String, c: char) -> (r: bool)
+    ensures r == a@.contains(c)
+{ a.contains(c) }
+
+// class S: Vec::from([..])
+#[verifier::external_body]
+pub fn vec_from_arr<T, const N: usize>(a: [T; N]) -> (r: Vec<T>)
+    ensures r@ == a@
+{ Vec::from(a) }
